@@ -20,7 +20,7 @@ ANCHORS = ["raggedarray/__init__.py::RaggedArray.sum", "raggedarray/__init__.py:
            "raggedarray/indexablearray.py::IndexableArray.get_column_values", "raggedshape.py::ViewBase.unravel_multi_index"]
 OPS = ["sum0", "np.sum0", "mean0", "np.mean0", "col_counts", "getcol"]
 FLOOR_TAGS = ["op:" + o for o in OPS] + ["kind:b", "kind:i", "kind:u", "kind:f", "e-first", "e-last", "e-mid", "e-consec", "e-none", "very-different-lengths",
-                                         "recv:fresh", "recv:lazyrows", "recv:lazycols+2", "recv:lazycols-1", "recv:lazychain", "getcol:last", "getcol:0", "axis:numpy-integer", "v:nonfinite", "op-write-op"]
+                                         "recv:fresh", "recv:lazyrows", "recv:lazycols+2", "recv:lazycols-1", "recv:lazychain", "getcol:last", "getcol:0", "axis:numpy-integer", "v:nonfinite", "op-write-op", "getcol:numpy-integer"]
 FLOOR_MONITORS = ["c09:compare", "c09:result-independent"]
 FP_STRICT = True       # a floating-point event inside the library that the dense computation does not have is a violation (shard.FpMonitor)
 N_RANDOM = {"quick": 30000, "thorough": 300000}
@@ -91,7 +91,11 @@ def run(case):
     else:
         exp = np.array(cols[j], dtype=dt)
         tags.append("getcol:last" if j == M - 1 else ("getcol:0" if j == 0 else "getcol:mid"))
-        a = attempt(lambda: ra.get_column_values(j))
+        jt = case.get("jtype")
+        jj = j if not jt else np.dtype(jt).type(j)           # the column number as a numpy integer of a type that can hold it (possibly exactly its largest value)
+        if jt:
+            tags.append("getcol:numpy-integer")
+        a = attempt(lambda: ra.get_column_values(jj))
     if case.get("axisform", "int") != "int" and op not in ("col_counts", "getcol"):
         tags.append("axis:numpy-integer")
     if case.get("vclass") == "nonfinite":
@@ -182,6 +186,9 @@ def gen_case(rng, lens, dtype, op=None, recv="fresh", vclass="small", j=None):
     c = mk_case(lens, dtype, _vals(rng, dtype, sum(lens), vclass), op, j, recv, vclass)
     if rng.random() < 0.25 and vclass == "small":
         c["rewrite"] = {"how": rng.choice(["ravel", "row", "iterrow", "cell"]), "pos": rng.randrange(10 ** 6), "val": rng.choice([0, 1, 3, 7])}
+    if op == "getcol" and rng.random() < 0.4:
+        fits = [d for d in gen.NP_INTS if j <= np.iinfo(d).max]
+        c["jtype"] = rng.choice(fits)
     if rng.random() < 0.3:
         c["axisform"] = rng.choice(["int64", "intp", "uint8", "int8", "int32"])
     return c
@@ -191,6 +198,12 @@ def directed():
     import random
     rng = random.Random(909)
     for c in big_cases():
+        yield c
+    # the column number is exactly the largest value of its (narrow) integer type, in arrays with longer and shorter rows
+    for jt_, jmax in (("int8", 127), ("uint8", 255), ("int8", 126), ("uint8", 254)):
+        lens_ = [jmax + 3, 2, jmax + 1, 0, jmax]
+        c = mk_case(lens_, "int32", [(i * 7) % 50 for i in range(sum(lens_))], "getcol", jmax, "fresh", "small")
+        c["jtype"] = jt_
         yield c
     shapes = [[1], [3], [0, 2, 3], [2, 3, 0], [2, 0, 3], [2, 0, 0, 3], [1, 0, 0], [0, 0, 4], [5, 0, 1, 1], [2, 0, 3, 4], [0, 0, 3, 2], [1, 12], [12, 0, 1, 1], [3, 3, 3], [4, 3, 2, 1], [1, 2, 3, 4]]
     for lens in shapes:
